@@ -565,8 +565,8 @@ Section step_credit.
     ¬ pCG P (t, i) →
     InvG U F B (addUC P (t, i)) s mb.
   Proof.
-    intros HI Hc Hcv HnCG. eapply InvG_equiv; [exact HI|simpl; try done..].
-    intros op chg Hcr. split; [by left|]. intros [?|->]; [done|]. exfalso.
+    intros HI Hc Hcv HnCG. eapply InvG_equiv; [exact HI|..]; simpl; try done.
+    intros op chg Hcr. split; [by left|]. intros [?| ->]; [done|]. exfalso.
     destruct (g_credits_complete _ _ _ _ _ _ HI t bh bhash i chg Hc Hcr HnCG) as [? Hx]. congruence.
   Qed.
 
@@ -627,7 +627,7 @@ Section step_credit.
       rewrite Hc in H1. injection H1 as <- <-. congruence.
     - intros t0 h0 bh0 i0 chg0 H1 H2 H3. eapply Hcc; eauto.
     - intros op' h1 bh1. rewrite Hus. split; intros (H1 & H2 & H3 & H4); repeat split; try done.
-      + intros [?|->]; [done|]. destruct H2 as [chg H2]. simpl in H1.
+      + intros [?| ->]; [done|]. destruct H2 as [chg H2]. simpl in H1.
         destruct (Hcc _ _ _ _ _ H1 H2 H3) as [? Hy].
         rewrite Hc in H1. injection H1 as <- <-. congruence.
       + intros ?; apply H3; by left.
